@@ -37,7 +37,18 @@ def run(ctx, chk):
     where0 = m.dispatch.where(0)
     bound_f, asof_f, drift_f = m.field_of.get(2), m.field_of.get(0), m.field_of.get(3)
     if not (bound_f and asof_f and drift_f):
-        chk.missing('C08.A', 'updater fields feeding the record (as_of, bound, drift): %s' % m.field_of)
+        # a record component that is not a plain read of one held field: say which one and what it is instead
+        shown = False
+        for i in m.infos:
+            for ceb in i['records']:
+                for ix, role, rule in ((0, 'as_of', 'C08.A'), (2, 'bound', 'C08.A'), (3, 'drift', 'C08.C')):
+                    if m.field_of.get(ix) is None and not shown:
+                        chk.ob(rule, 'record:%s-is-one-held-field' % role, False, i['path'].where[2],
+                               'the published %s is %s, not a read of one field of the updater: it can change while the held sample '
+                               '(as_of) stays frozen' % (role, fmt(ceb[3][ix])[:140]))
+                shown = True
+        if not shown:
+            chk.missing('C08.A', 'updater fields feeding the record (as_of, bound, drift): %s' % m.field_of)
         return
     seen = {}
     for i in m.infos:
